@@ -179,6 +179,12 @@ func cmdCheck(args []string) int {
 
 func runPool(units []Unit, procs int) []UnitResult {
 	self, _ := os.Executable()
+	race := len(units) > 0 && units[0].Prop == "C13"
+	if race {
+		self = filepath.Join(verifDir, ".cache", "bin", "engine-race")
+		os.RemoveAll(filepath.Join(verifDir, ".cache", "race"))
+		os.MkdirAll(filepath.Join(verifDir, ".cache", "race"), 0o755)
+	}
 	results := make([]UnitResult, len(units))
 	var wg sync.WaitGroup
 	ch := make(chan int)
@@ -191,6 +197,10 @@ func runPool(units []Unit, procs int) []UnitResult {
 				b, _ := json.Marshal(u)
 				cmd := exec.Command(self, "unit", string(b))
 				cmd.Env = append(os.Environ(), "GOMAXPROCS=2")
+				if race {
+					cmd.Env = append(cmd.Env, "GOMAXPROCS=1")
+					cmd.Env = append(cmd.Env, "GORACE=halt_on_error=0 log_path="+filepath.Join(verifDir, ".cache", "race", fmt.Sprintf("u%d", i)))
+				}
 				var stderr strings.Builder
 				cmd.Stderr = &stderr
 				out, err := cmd.Output()
@@ -431,8 +441,17 @@ func init() {
 
 func init() {
 	x2rule := "explicit-state BFS over event histories (schedule, schedule-with-graph-error, cancel, task done/failed, clock advance, reload) of the real runner for every configuration of the grid, deduplicated by a canonical dump of the runner state; states = distinct canonical states, transitions = executed history extensions; an outcome is distinct when the reported runner state differs"
-	for _, p := range []string{"C01", "C03", "C05", "C06", "C07", "C15", "C16"} {
+	for _, p := range []string{"C01", "C02", "C08", "C03", "C05", "C06", "C07", "C15", "C16"} {
 		propMeta[p] = propInfo{Level: "model_checking", Assumptions: rmcAssumptions, Rule: x2rule,
 			Explanation: "explicit-state BFS over event histories executed on the real PipelineRunner under a controlled scheduler and virtual clock"}
 	}
+}
+
+func init() {
+	propMeta["C13"] = propInfo{Level: "model_checking", Assumptions: append([]string{
+		"the Go race detector's happens-before analysis is evaluated on every explored execution of a -race build; scheduler hand-offs are spins inside //go:norace functions, so the detector sees only the edges of the real primitives that the shims wrap",
+		"reports whose two accesses are not both in production code of the repository (shim, harness, *_verif.go) are counted and ignored",
+		"the scenario list (all pairs and chosen triples of exported operations against a live state) is the bound: accesses no scenario performs are not analysed"}, rmcAssumptions...),
+		Rule:        "every schedule up to the deviation bound of every pair (and chosen triples) of exported operations running against a finished, a running and a waiting job plus the persist loop, in a race-detector build; an execution is distinct when its final runner state differs",
+		Explanation: "stateless DFS over thread interleavings in a -race build with detector-invisible hand-offs"}
 }
